@@ -29,7 +29,7 @@ func init() {
 		Title:    "Formatting preserves the diagram's meaning",
 		Patterns: []string{"./d2format", "./d2ast", "./d2ir", "./d2compiler", "./d2graph"},
 		Explanation: "Decides: (1) every case-changing call in the printer is control-dependent on the key context (p.inKey): values are never re-cased; (2) the printer lower-cases key segments spelled like reserved keywords, so the compile path must classify keywords case-insensitively: every lookup into the d2ast keyword tables in d2ir, d2compiler and d2graph takes a key that went through strings.ToLower (value-level, following local definitions); each raw lookup is a place where `Shape: circle` and its formatted form `shape: circle` are treated differently; " +
-			"(3) printer field coverage: every exported field (other than Range) of the AST node types is read by the printer — a field the printer never reads is lost from the formatted text.",
+			"(3) printer field coverage: every exported field (other than Range) of the AST node types is read by the printer — a field the printer never reads is lost from the formatted text. Also: a printer function that tells quoted from unquoted text by a bool parameter changes letter case only on the unquoted side.",
 		NotCovered: "equivalence of the compiled diagrams in general; statement order effects of the board hoist (boards printed last in their map)",
 		Technique:  "static analysis: control dependence on go/cfg, value provenance of map keys, struct-field read coverage",
 		Run:        runC04,
@@ -40,7 +40,7 @@ func init() {
 		Patterns: []string{"./d2ast", "./d2format", "./d2parser"},
 		Explanation: "Decides classifier/generator agreement without running either side: (1) the words the parser's parseValue turns into null, suspension markers and booleans (operands of strings.EqualFold, extracted from the code) are taken as string classes (the word itself; its other case variants); RawString(s, inKey=false) is interpreted abstractly over each class (three-valued conditions, helper functions interpreted, loops over literal lists unrolled) and must have no feasible return of an unquoted node for them — except the canonical spellings true and false, which print back identically; " +
 			"the same interpretation of escapeUnquotedValue must not return a constant (a constant result cannot preserve letter case); (2) every rune at which parseUnquotedString stops or branches (the case constants of its rune switches, split by key/value context) is in UnquotedKeySpecials / UnquotedValueSpecials, so a string containing it is quoted or escaped; " +
-			"(3) hasSurroundingWhitespace decodes whole runes at both ends (sibling agreement of its two tests); (4) key context: the printer lower-cases keyword-like segments, RawString does not quote them — reported as a known finding.",
+			"(3) hasSurroundingWhitespace decodes whole runes at both ends (sibling agreement of its two tests); (4) key context: the printer lower-cases keyword-like segments, RawString does not quote them — reported as a known finding. Also: the printer re-cases key text only when it is unquoted, so a quoted segment spelled like a keyword keeps its case (the generator relies on it).",
 		NotCovered: "round-trip equality for arbitrary strings beyond these tables (escape sequences inside quoted strings, the `-` look-ahead in keys)",
 		Technique:  "static analysis: abstract interpretation of the generator over string classes extracted from the parser; constant-set inclusion; sibling agreement",
 		Run:        runC05,
